@@ -23,7 +23,7 @@ for p in props:
                 "text": P.get("level_text", "Bounded symbolic execution of the real functions (go/ssa of /repo's working tree) with an SMT solver deciding every assertion over all values of the symbolic inputs within the stated bounds; counterexamples are replayed natively against the real build."),
                 "design_ref": "DESIGN.md section 2, " + pid,
             },
-            "level_note": "Bounds: %s. Outside the claim: %s. Trusted base: the gosym executor and its intrinsics/stubs (listed per run in the evidence file), z3 4.8.12." % (P.get("bounds", ""), P.get("outside", "")),
+            "level_note": "Bounds: %s. Outside the claim: %s. Trusted base: the gosym executor and its intrinsics/stubs (listed per run in the evidence file), z3 5.1.0 (z3-new on PATH; cvc5 1.0 for the floating-point and modulo obligations of C10)." % (P.get("bounds", ""), P.get("outside", "")),
             "technique": P.get("technique", "solver-based bounded symbolic execution of the Go SSA (gosym + z3), native replay of counterexamples"),
         })
     else:
